@@ -45,13 +45,20 @@ fn group_round<G: Grp>(rng: &mut StdRng, pool: &Pool, out: &mut Out, k: u64, foc
         1 => (G::rep(rng, -a, tb), -ka),                     // opposite
         2 => (zrep::<G>(rng), Fr::zero()),
         3 => (G::rep(rng, a + a, tb), ka + ka),              // doubled
+        4 => {
+            // related by the order-3 endomorphism of the j = 0 curve: (w x, +-y) - same y up to sign, different point
+            let e = if rng.gen() { a.endo() } else { a.endo().endo() };
+            let e = if rng.gen() { -e } else { e };
+            (if rng.gen() { e } else { G::rep(rng, e, tb) }, Fr::zero())
+        }
         _ => elem::<G>(rng, pool, tb),
     };
+    let nodl = k % 8 == 4;
     let (a, bb, ka, kb) = if k % 8 == 2 && rng.gen() { (bb, a, kb, ka) } else { (a, bb, ka, kb) };
     let (sa, sb) = (ka.to_slice(), kb.to_slice());
     let opn = ["g.add", "g.sub"][rng.gen_range(0..2)];
     if focus != "mul" && (focus != "eq" || k % 4 == 0) {
-    out.call(opn, json!({"G": g, "a": a.jac(), "b": bb.jac(), "ka": b(&sa), "kb": b(&sb)}), || {
+    out.call(opn, json!({"G": g, "a": a.jac(), "b": bb.jac(), "ka": b(&sa), "kb": b(&sb), "nodl": nodl}), || {
         let r = if opn == "g.add" { a + bb } else { a - bb };
         outs! {"out" => r.jac(), "isz" => Value::Bool(r.is_zero_())}
     });
@@ -182,9 +189,47 @@ fn encode_round<G: Grp>(rng: &mut StdRng, pool: &Pool, out: &mut Out) {
     }
 }
 
+/// the three encoders on every representation of one point (no discrete logarithm known: no anchor)
+fn encode_point<G: Grp>(rng: &mut StdRng, out: &mut Out, p: G) {
+    for q in [p, -p] {
+        for tag in ["A", "J", "S"] {
+            let r = G::rep(rng, q, tag);
+            for fmt in ["raw", "unc", "cmp"] {
+                out.call("g.encode", json!({"G": G::NAME, "a": r.jac(), "fmt": fmt, "k": b(&[0u8; 32]), "negated": q != p, "anchor": false}), || {
+                    let e = r.enc(fmt);
+                    let d = G::dec(&e, fmt);
+                    outs! {"out" => b(&e), "dec" => opt_jac(d), "deceq" => Value::Bool(d.map(|x| x == r).unwrap_or(false))}
+                });
+            }
+        }
+    }
+}
+
 pub fn run_encode(a: &Args, out: &mut Out) {
     let pool = load_pool(&a.pool, "Fr");
     let mut rng = rng_from(a.seed, "encode");
+    // points with SHORT coordinates (leading zero bytes in the big-endian field encoding): G1 points with a small x ...
+    let mut found = 0;
+    for xi in 0u8..60 {
+        let mut v = vec![2u8];
+        v.extend_from_slice(&[0u8; 31]);
+        v.push(xi);
+        if let Some(p) = <G1 as Grp>::dec(&v, "cmp") {
+            encode_point::<G1>(&mut rng, out, p);
+            found += 1;
+            if found >= 3 { break; }
+        }
+    }
+    // ... and the first multiples of the generators having a coordinate limb whose top byte is zero
+    let (mut n1, mut n2) = (0, 0);
+    let (mut p1, mut p2) = (G1::one(), G2::one());
+    for _ in 0..3000 {
+        p1 = p1 + G1::one();
+        p2 = p2 + G2::one();
+        if n1 < 2 && p1.enc("raw").chunks(32).any(|c| c[0] == 0) { n1 += 1; encode_point::<G1>(&mut rng, out, p1); }
+        if n2 < 2 && p2.enc("raw").chunks(32).any(|c| c[0] == 0) { n2 += 1; encode_point::<G2>(&mut rng, out, p2); }
+        if n1 >= 2 && n2 >= 2 { break; }
+    }
     let mut k = 0u64;
     while !out.full() {
         k += 1;
